@@ -61,7 +61,7 @@ def flushPending (st : PScan) : Except ProjErr PScan :=
 their INCLUDE directives, innermost first (= `scanner.Stack`, top first). The pending directive is NOT placed at an
 INCLUDE; it is placed at the next keyword, at ")" and at the end of EVERY file (`processEOF`), where an open
 parenthesised context is an error. -/
-def scanFile (fs : FS) : Nat → List (Nat × Nat) → Nat → Nat → List FTok → PScan → Except ProjErr PScan
+def scanIncFile (fs : FS) : Nat → List (Nat × Nat) → Nat → Nat → List FTok → PScan → Except ProjErr PScan
   | 0, _, _, _, _, _ => .error (.inc .fuel)
   | _ + 1, _, _, _, [], st =>
     match flushPending st with
@@ -74,7 +74,7 @@ def scanFile (fs : FS) : Nat → List (Nat × Nat) → Nat → Nat → List FTok
       | .error e => .error e
       | .ok st' =>
         if d.kind == Kind.Jsight && !stack.isEmpty then .error (.inc (.jsightInIncluded cur pos))
-        else scanFile fs fuel stack cur (pos + 1) rest
+        else scanIncFile fs fuel stack cur (pos + 1) rest
           { st' with pending := some d, traces := st'.traces ++ [(d.id, stack)] }
     | .close =>
       match flushPending st with
@@ -82,7 +82,7 @@ def scanFile (fs : FS) : Nat → List (Nat × Nat) → Nat → Nat → List FTok
       | .ok st' =>
         match closeExplicit st'.ctx.frames st'.ctx.roots with
         | .error e => .error (.ctx e)
-        | .ok c => scanFile fs fuel stack cur (pos + 1) rest { st' with ctx := c }
+        | .ok c => scanIncFile fs fuel stack cur (pos + 1) rest { st' with ctx := c }
     | .incl f valid =>
       if !valid then .error (.inc (.badName cur pos))
       else match fs.get? f with
@@ -91,9 +91,9 @@ def scanFile (fs : FS) : Nat → List (Nat × Nat) → Nat → Nat → List FTok
         | some (.file toks) =>
           -- `Stack.Push(core.scanner, at)`: the INCLUDING file is pushed; refused if its name is already on the stack
           if stack.any (·.1 == cur) then .error (.inc (.recursion cur pos))
-          else match scanFile fs fuel ((cur, pos) :: stack) f 0 toks st with
+          else match scanIncFile fs fuel ((cur, pos) :: stack) f 0 toks st with
             | .error e => .error e
-            | .ok st' => scanFile fs fuel stack cur (pos + 1) rest st'
+            | .ok st' => scanIncFile fs fuel stack cur (pos + 1) rest st'
 
 def fsSize (fs : FS) : Nat := fs.foldl (fun n e => n + (match e.2 with | .file t => t.length + 1 | .directory => 1)) 0
 
@@ -101,7 +101,7 @@ def fsSize (fs : FS) : Nat := fs.foldl (fun n e => n + (match e.2 with | .file t
 def scanProject (fs : FS) (root : Nat) : Except ProjErr (List Tree × List (Nat × List (Nat × Nat))) :=
   match fs.get? root with
   | some (.file toks) =>
-    match scanFile fs ((fs.length + 2) * (fsSize fs + 2) + 2) [] root 0 toks {} with
+    match scanIncFile fs ((fs.length + 2) * (fsSize fs + 2) + 2) [] root 0 toks {} with
     | .error e => .error e
     | .ok st => .ok (closeAll st.ctx.frames st.ctx.roots, st.traces)
   | _ => .error (.inc (.missing root 0))
